@@ -150,6 +150,12 @@ impl Shared {
         None
     }
 
+    /// Run one pass of the (normally timer-driven) freeze procedure synchronously.
+    #[cfg(ckb_verif)]
+    pub fn verif_freeze_once(&self) -> Result<(), Error> {
+        self.freeze()
+    }
+
     fn freeze(&self) -> Result<(), Error> {
         let freezer = self.store.freezer().expect("freezer inited");
         let snapshot = self.snapshot();
